@@ -38,6 +38,7 @@ type flight struct {
 	raw      []byte
 	stamp    int // scheduler point counter at enqueue time: messages enqueued in one atomic step share it
 	seq      int
+	dup      bool // already retransmitted once
 }
 
 // Net is the adversarial in-memory network under the cooperative scheduler. It owns arrival order: which of the
@@ -49,6 +50,7 @@ type Net struct {
 	q        []*flight
 	seq      int
 	parties  []sharing.ID
+	dupDev   bool              // every message may be delivered twice (identical retransmission; costs one deviation)
 	fifo     bool              // arrival order: true = ChooseDev (FIFO default, other orders cost a deviation), false = all orders
 	failRecv map[sharing.ID]int // party -> after how many deliveries Receive returns a transport error (-1 never)
 	delivered map[sharing.ID]int
@@ -141,6 +143,14 @@ func (e *Endpoint) Receive(ctx context.Context) (sharing.ID, []byte, error) {
 		return 0, nil, ctx.Err()
 	}
 	f := p[c]
+	// identical retransmission: decided at DELIVERY time (a deterministic point; Send is called from a Go map range in
+	// Router.SendTo, so a choice there would not replay): the message is handed over now and stays in flight once more.
+	if n.dupDev && !f.dup && mcrt.ChooseDev("retransmit", 2) == 1 {
+		f.dup = true
+		n.delivered[e.id]++
+		n.Delivered[e.id] = append(n.Delivered[e.id], f)
+		return f.from, f.raw, nil
+	}
 	n.remove(f)
 	n.delivered[e.id]++
 	n.Delivered[e.id] = append(n.Delivered[e.id], f)
